@@ -40,7 +40,8 @@ for line in open(dump):
 by_op = {}
 for cid in order:
     w = want[cid]
-    by_op.setdefault(w[0], [[], []])[0 if (w[1] or w[3] or w[5] or w[7] or w[8]) else 1].append(cid)
+    rich = w[1] or w[3] or w[5] or (w[0] in (1, 2, 5) and w[7]) or (w[0] == 5 and w[8])
+    by_op.setdefault(w[0], [[], []])[0 if rich else 1].append(cid)
 def spread(xs, k):
     if k <= 0 or not xs: return []
     if len(xs) <= k: return list(xs)
